@@ -224,6 +224,17 @@ def run(pid, tier, seed, replay=None):
             v["random"] = True
         vectors += rnd
         del sim
+        # scripted histories: balanced tournaments over 8 items (depth-3 trees) followed by one lookup of each item
+        scr = run_tlc("UnionFind", "UnionFind_script.cfg", workers=1, timeout=600, tags=("VEC", "CFG"))
+        tlc_ok(scr, "UnionFind (scripted)")
+        sv = [v for t, v in scr.lines if t == "VEC"]
+        if len(sv) != 16:
+            raise ToolError(f"the scripted run printed {len(sv)} vectors, expected 16")
+        out.add_tlc(scr, "UnionFind_script")
+        for v in sv:
+            v["scripted"] = True
+        vectors += sv
+        del scr
     work = os.path.join(vlib.BUILD, "work", pid)
     cases, outp = os.path.join(work, "cases.ndjson"), os.path.join(work, "out.ndjson")
     write_ndjson(cases, vectors)
